@@ -63,3 +63,22 @@ open MdIt.BlockH.C16
 #print axioms custom_rule_after_list
 #print axioms engH_ok2
 #print axioms engX_ok2
+
+-- third session (appended)
+#check @runRuleH_silent_congr3
+#check @engH_ok3
+#check @engX_ok3
+#check @bqScan_exit
+#check @blockquote_scans
+#check @quote_end_is_real_start
+#check @quote_end_is_real_start_shipped
+#check @custom_rule_after_quote
+
+#print axioms runRuleH_silent_congr3
+#print axioms engH_ok3
+#print axioms engX_ok3
+#print axioms bqScan_exit
+#print axioms blockquote_scans
+#print axioms quote_end_is_real_start
+#print axioms quote_end_is_real_start_shipped
+#print axioms custom_rule_after_quote
